@@ -7,4 +7,5 @@ mod c08;
 mod c09;
 mod c11;
 mod c12;
+pub mod world;
 pub mod io;
